@@ -57,21 +57,18 @@ def setLenAnis (dim : Nat) (lenScale anis : List α) : Except String (α × List
 /-- `np.eye(dim)` -/
 def eye : Nat → Nat → α := fun i j => if i = j then ((1:Nat):α) else ((0:Nat):α)
 
-/-- row-major table of the `d × d` block of `f` -/
+/-- `np.matmul(A, B)` for `dim × dim` matrices -/
+def matmul (dim : Nat) (A B : Nat → Nat → α) : Nat → Nat → α :=
+  fun i j => forRange 0 dim ((0:Nat):α) fun k acc => acc + A i k * B k j
+
+/-- materialise the `d × d` block of `f` row-major (numpy arrays are data, not closures; the
+    rotation loops below keep their running `result` as such a table) -/
 def tabArr (d : Nat) (f : Nat → Nat → α) : Array α :=
   Array.ofFn (n := d * d) fun k => f (k.val / d) (k.val % d)
 
-/-- read a `d × d` row-major table, falling back to `f` outside the block -/
-def ofArr (d : Nat) (a : Array α) (f : Nat → Nat → α) : Nat → Nat → α :=
-  fun i j => if h : j < d ∧ j + i * d < a.size then a[j + i * d]'h.2 else f i j
-
-/-- evaluate the `d × d` block of `f` once (numpy materialises every intermediate matrix; without
-    this the closures re-evaluate all factors for every entry).  `memo2 d f = f` (`memo2_eq`). -/
-def memo2 (d : Nat) (f : Nat → Nat → α) : Nat → Nat → α := ofArr d (tabArr d f) f
-
-/-- `np.matmul(A, B)` for `dim × dim` matrices -/
-def matmul (dim : Nat) (A B : Nat → Nat → α) : Nat → Nat → α :=
-  memo2 dim fun i j => forRange 0 dim ((0:Nat):α) fun k acc => acc + A i k * B k j
+/-- read a `d × d` row-major table -/
+def ofArr (d : Nat) (a : Array α) : Nat → Nat → α :=
+  fun i j => if h : j < d ∧ j + i * d < a.size then a[j + i * d]'h.2 else ((0:Nat):α)
 
 /-- `A.T` -/
 def transpose (A : Nat → Nat → α) : Nat → Nat → α := fun i j => A j i
@@ -102,11 +99,13 @@ def signedSeq (dim : Nat) (angles : List α) : List ((Nat × Nat) × α) :=
 
 /-- `matrix_rotate(dim, angles)`: `result = G_i · result` -/
 def matrixRotate (dim : Nat) (angles : List α) : Nat → Nat → α :=
-  (signedSeq dim (setAngles dim angles)).foldl (fun r p => matmul dim (givens p.1 p.2) r) eye
+  ofArr dim <| (signedSeq dim (setAngles dim angles)).foldl
+    (fun r p => tabArr dim (matmul dim (givens p.1 p.2) (ofArr dim r))) (tabArr dim eye)
 
 /-- `matrix_derotate(dim, angles)`: negated padded angles, `result = result · G_i` -/
 def matrixDerotate (dim : Nat) (angles : List α) : Nat → Nat → α :=
-  (signedSeq dim ((setAngles dim angles).map fun a => -a)).foldl (fun r p => matmul dim r (givens p.1 p.2)) eye
+  ofArr dim <| (signedSeq dim ((setAngles dim angles).map fun a => -a)).foldl
+    (fun r p => tabArr dim (matmul dim (ofArr dim r) (givens p.1 p.2))) (tabArr dim eye)
 
 /-- `matrix_isotropify(dim, anis) = diag([1] ++ 1 / set_anis)` -/
 def matrixIsotropify (dim : Nat) (anis : List α) : Nat → Nat → α :=
